@@ -138,6 +138,9 @@ def run_impl(tp, d, o, method=False, keep=None):
     data = instantiate(d)
     if keep is not None: keep["data"] = data
     kw = dict(additional_properties=o["ap"], fall_back_on_default=o["fbod"], no_copy=o["nc"], coerce=o["coerce"])
+    if o.get("schema"):
+        from apischema import schema as _schema
+        kw["schema"] = _schema(**{o["schema"][0]: eval(o["schema"][1]) if isinstance(o["schema"][1], str) and o["schema"][0] == "pattern" else o["schema"][1]})
     try:
         v = deserialization_method(tp, **kw)(data) if method else deserialize(tp, data, **kw)
         if keep is not None: keep["value"] = v
@@ -196,6 +199,11 @@ KINDS_BY_PROP = {
 }
 
 
+def cons_names(t):
+    if getattr(t, "cons", None): yield t.cons[0]
+    for k in t.kids: yield from cons_names(k)
+
+
 def gen_cases(prop, seed, n_types, per):
     rnd = random.Random(seed * 1000003 + hash(prop) % 997 if False else seed * 1000003 + sum(map(ord, prop)))
     pool = Pool(); g = Gen(rnd, pool, KINDS_BY_PROP.get(prop))
@@ -219,12 +227,21 @@ def gen_cases(prop, seed, n_types, per):
                 d = malform(rnd, d, pool=MALFORMED + (SUBCLASSED if rnd.random() < 0.3 else []))
             o = {"ap": rnd.random() < 0.3, "fbod": rnd.random() < 0.2, "nc": rnd.random() < 0.5, "octor": False,
                  "coerce": coerce, "repaired": True}
+            base = {"int": "int", "cint": "int", "float": "float", "cfloat": "float", "str": "str", "cstr": "str"}.get(t.kind)
+            if base and prop in ("C01", "C02", "C06") and rnd.random() < 0.3:
+                # per-call `schema=` argument: a second constraint set merged with the type's own
+                used = set(cons_names(t))
+                free = [c for c in Gen.CONS[base][2] if c[0] not in used]    # (merging one keyword with itself: min / max / lcm / TypeError, not modelled)
+                if free:
+                    name, val, proto = rnd.choice(free)
+                    o["schema"] = [name, val, proto]
             cases.append((t, tp, d, o, ns))
     return cases
 
 
 def request(i, t, d, o, ns):
     req = {"id": i, "op": "deser", "opts": o, "ty": t.lean, "d": dproto(d)}
+    if o.get("schema"): req["schema"] = {o["schema"][0]: o["schema"][2]}
     if o["coerce"]: req["cenv"] = dict(coerce_env(instantiate(d)), lits=lit_first(t, ns, [], real_literal_methods(eval(t.py, ns), o)))
     return req
 
